@@ -72,8 +72,7 @@ class Env:
 
         def exp_rename(se):
             s, e = se
-            for x in e.free_symbols:
-                e = e.subs(x, Symbol(f"{deff[0]}_{x.name}"))
+            e = e.xreplace({x: Symbol(f"{deff[0]}_{x.name}") for x in e.free_symbols})
             return (Symbol(f"{deff[0]}_{s.name}"), e)
 
         deff = (
@@ -87,7 +86,7 @@ class Env:
         d_exp: Dict[Symbol, Boolean] = {}
         n_exps = []
         for s, e in deff[3]:
-            new_e = e.subs(d_exp)
+            new_e = e.xreplace(d_exp)
             d_exp[s] = new_e
             n_exps.append((s, new_e))
 
